@@ -297,6 +297,11 @@ func (h *handler1) handleClientPublish(ctx context.Context, snPublish *snPkts1.P
 	default:
 		return fmt.Errorf("invalid topic id type %d", snPublish.TopicIDType)
 	}
+	// Any two octets can come as a short topic name but not all of them
+	// form a topic name which can be used in an MQTT PUBLISH.
+	if !isValidTopicName(topic) {
+		return fmt.Errorf("invalid topic name %q in %v", topic, snPublish)
+	}
 	if snPublish.QOS == 1 {
 		h.transactions.Store(msgID, newClientPublishQOS1Transaction(ctx, h, msgID, snPublish.TopicID))
 	}
@@ -717,7 +722,7 @@ func (h *handler1) handleSubscribe(ctx context.Context, snSubscribe *snPkts1.Sub
 		// topicID remains zero.
 	}
 
-	if snSubscribe.QOS > 2 || snSubscribe.MessageID() == 0 {
+	if !isValidTopicFilter(topic) || snSubscribe.QOS > 2 || snSubscribe.MessageID() == 0 {
 		snSuback := snPkts1.NewSuback(0, snPkts1.RC_NOT_SUPPORTED, 0)
 		snSuback.CopyMessageID(snSubscribe)
 		return h.snSend(snSuback)
